@@ -231,7 +231,7 @@ def grid_envs(rng, keys, ms, n, base=None):
     for _ in range(n):
         env = dict(base)
         for f, pts in per_field.items():
-            if rng.random() < 0.9:
+            if pts and rng.random() < 0.9:
                 env[f] = rng.choice(pts)
         # python_version is major.minor of python_full_version for a consistent environment
         env['python_version'] = major_minor(env['python_full_version'])
